@@ -8,12 +8,12 @@ Definition live (st : state) (id : N) (r : rec) : Prop := lookup id (src st) = S
 
 (** at most one physical mapping per (org, db, rp) *)
 Lemma pair_unique bk base ops :
-  wf_bk bk base -> Forall (legal base) ops ->
+  wf_bk bk base ->
   forall id1 id2 r1 r2, live (run bk base ops) id1 r1 -> live (run bk base ops) id2 r2 ->
     r_org r1 = r_org r2 -> r_db r1 = r_db r2 -> r_rp r1 = r_rp r2 -> id1 = id2 /\ r_bkt r1 = r_bkt r2.
 Proof.
-  intros W L id1 id2 r1 r2 H1 H2 E1 E2 E3.
-  pose proof (inv_uniq _ _ (run_inv _ _ _ W L) id1 id2 r1 r2 H1 H2 E1 E2 E3) as E.
+  intros W id1 id2 r1 r2 H1 H2 E1 E2 E3.
+  pose proof (inv_uniq _ _ (run_inv _ _ _ W) id1 id2 r1 r2 H1 H2 E1 E2 E3) as E.
   split; [exact E|]. subst id2. unfold live in *. congruence.
 Qed.
 
@@ -31,23 +31,23 @@ Proof.
 Qed.
 
 Lemma one_default bk base ops o d :
-  wf_bk bk base -> Forall (legal base) ops ->
+  wf_bk bk base ->
   (exists id r, live (run bk base ops) id r /\ r_org r = o /\ r_db r = d) ->
   exists id r, live (run bk base ops) id r /\ r_org r = o /\ r_db r = d /\
                is_default (run bk base ops) o d id = true /\
                forall id', is_default (run bk base ops) o d id' = true -> id' = id.
-Proof. intros W L. apply one_default_inv with (base := base). apply run_inv; assumption. Qed.
+Proof. intros W. apply one_default_inv with (base := base). apply run_inv; assumption. Qed.
 
 (** the default index and the (org, db) index agree with the stored mappings *)
 Lemma index_consistent bk base ops :
-  wf_bk bk base -> Forall (legal base) ops ->
+  wf_bk bk base ->
   let st := run bk base ops in
   (forall o d id, dget o d (dfl st) = Some id ->
      exists r, live st id r /\ r_org r = o /\ r_db r = d /\ find_by_id st o id = Some (rec2m id r true)) /\
   (forall o d, dget o d (dfl st) = None -> forall id r, live st id r -> ~ (r_org r = o /\ r_db r = d)) /\
   (forall o d id, In (o, d, id) (iod st) <-> exists r, live st id r /\ r_org r = o /\ r_db r = d).
 Proof.
-  intros W L st. pose proof (run_inv _ _ _ W L) as I. fold st in I. repeat split.
+  intros W st. pose proof (run_inv bk base ops W) as I. fold st in I. repeat split.
   - intros o d id G. pose proof (inv_dfl _ _ I o d) as D. unfold dfl_ok_at in D. rewrite G in D.
     destruct D as [r [Lk [H1 H2]]]. exists r. repeat split; auto.
     unfold find_by_id. unfold live in *. rewrite Lk, H1, N.eqb_refl. unfold is_default. rewrite H2, G, N.eqb_refl.
@@ -58,40 +58,38 @@ Proof.
   - apply (inv_idx _ _ I).
 Qed.
 
-(** ---- counterexamples of the faithful model (replayed on the real code by the driver) ---- *)
+(** ---- the former counterexamples (findings.d/C43.json, fixed), now positive ---- *)
 
 (** buckets: 14 = org 1 "db" (plain), 15 = org 1 "zz" *)
 Definition bk_shadow : list bucket := [B 14 1 1 0 true 0; B 15 1 3 0 true 1].
 Definition ops_shadow : list op := [Create 1 1 2 15 false; Create 1 1 0 15 false].
 
-(** after two legal creates the listing of (org 1, db) shows TWO mappings for (db, autogen)
-    pointing to different buckets: the physical one (id 101 -> bucket 15) and the virtual
-    one of the plain bucket "db" (id 14 -> bucket 14) *)
-Lemma shadow_witness :
-  Forall (legal 100) ops_shadow /\
+(** the physical (db, autogen) mapping 101, although listed after the default mapping 100,
+    shadows the virtual (db, autogen) mapping of the plain bucket "db" *)
+Lemma shadow_fixed :
   find_many (run bk_shadow 100 ops_shadow) (fod 1 1) =
-    ROk [M 100 1 1 2 15 true false; M 101 1 1 0 15 false false; M 14 1 1 0 14 false true].
-Proof. split; [repeat constructor; cbn; lia | vm_compute; reflexivity]. Qed.
+    ROk [M 100 1 1 2 15 true false; M 101 1 1 0 15 false false].
+Proof. vm_compute; reflexivity. Qed.
+
+(** two buckets "db/autogen" (14) and "db" (15) of one org next to a default (db, r2): one
+    virtual (db, autogen) only in the listing without org filter *)
+Lemma shadow_fixed_virtual :
+  find_many (run [B 14 1 1 0 false 0; B 15 1 1 0 true 1; B 16 1 3 0 true 2] 100 [Create 1 1 2 16 false]) F0 =
+    ROk [M 100 1 1 2 16 true false; M 14 1 1 0 14 false true; M 16 1 3 0 16 true true].
+Proof. vm_compute; reflexivity. Qed.
 
 (** buckets: 14 = org 1 "db/r1", 15 = org 1 "zz" *)
 Definition bk_ghost : list bucket := [B 14 1 1 1 false 0; B 15 1 3 0 true 1].
 Definition ops_ghost : list op :=
   [Create 1 1 2 15 false; Create 1 1 0 15 false; Update 1 14 1 true true].
 
-(** updating the VIRTUAL mapping of bucket 14 stores an un-indexed record and points the
-    default entry at it: database (1, db) has two physical mappings in its listing and none
-    is the default, while the default lookup returns the un-indexed record *)
-Lemma ghost_witness :
-  let st := run bk_ghost 100 ops_ghost in
-  find_many st (fod 1 1) =
-    ROk [M 100 1 1 2 15 false false; M 101 1 1 0 15 false false; M 14 1 1 1 14 false true] /\
-  find_many st (fdef 1 1) = ROk [M 14 1 1 1 14 true true] /\
-  is_default st 1 1 100 = false /\ is_default st 1 1 101 = false /\
-  ~ In (1, 1, 14) (iod st).
-Proof. vm_compute. repeat split; try reflexivity. intros [H | [H | H]]; try discriminate; exact H. Qed.
+(** updating the VIRTUAL mapping of bucket 14 is rejected (not found) and changes nothing *)
+Lemma ghost_fixed :
+  snd (step (run bk_ghost 100 (firstn 2 ops_ghost)) (Update 1 14 1 true true)) = E_NOTFOUND /\
+  run bk_ghost 100 ops_ghost = run bk_ghost 100 (firstn 2 ops_ghost) /\
+  find_many (run bk_ghost 100 ops_ghost) (fdef 1 1) = ROk [M 100 1 1 2 15 true false].
+Proof. vm_compute. repeat split; reflexivity. Qed.
 
-(** ... and the listing without an org filter dereferences a nil default id when the
-    un-indexed record's database has no default entry *)
-Lemma ghost_panic_witness :
-  find_many (run [B 14 2 1 1 false 0] 100 [Update 2 14 1 false true]) F0 = RPanic.
+Lemma ghost_panic_fixed :
+  find_many (run [B 14 2 1 1 false 0] 100 [Update 2 14 1 false true]) F0 = ROk [M 14 2 1 1 14 false true].
 Proof. vm_compute. reflexivity. Qed.
